@@ -17,4 +17,6 @@ def run(ctx):
     nondet.scan_shared_state(r, ctx.lib)
     c15.check_merge(r, ctx.lib)
     results.scan_results(r, ctx.lib)
+    from . import c08
+    c08.forbidden_calls(r, ctx.lib, c08.CONFIG, "R8.4.default-checks", "`%s` relaxes the reader/attribute checks: a malformed later document would be merged instead of rejected")
     r.assume("conformance to today's mechanism (frozen instance table); commutativity/idempotence are not decided")
